@@ -2942,7 +2942,11 @@ class CSet(Set):
                 # not define an __iter__ method)
                 value = set(value)
             except (ValueError, TypeError):
-                value = set([value])
+                try:
+                    value = set([value])
+                except TypeError:
+                    # Neither the value nor its items are hashable.
+                    self.error(object, name, value)
 
         return super().validate(object, name, value)
 
